@@ -22,6 +22,10 @@ __all__ = ['FormatError', 'RefFS', 'Inode', 'Complaint', 'TreeEntry', 'dirhash',
 class FormatError(Exception):
     """Impossible on-disk structure met by a low-level accessor."""
 
+    def __init__(self, msg, kind=None):
+        Exception.__init__(self, msg)
+        self.kind = kind          # 'range' for out-of-bounds block references
+
 
 # --------------------------------------------------------------------------- CRCs
 
@@ -866,7 +870,7 @@ class RefFS:
     def _check_pblk(self, pblk, n, what):
         if pblk < self.first_data_block or pblk + n > self.blocks_count or n <= 0:
             raise FormatError('%s: physical range %d+%d outside [%d, %d)' % (
-                what, pblk, n, self.first_data_block, self.blocks_count))
+                what, pblk, n, self.first_data_block, self.blocks_count), 'range')
 
     def extents(self, inode):
         """Return ([(lblk, pblk, len, uninit)], [tree block numbers]) for extent- and block-mapped inodes."""
@@ -898,8 +902,6 @@ class RefFS:
                     raise FormatError('%s: eh_depth %d > %d' % (where, depth, self.MAX_EXTENT_DEPTH))
             elif depth != depth_expected:
                 raise FormatError('%s: eh_depth %d, expected %d' % (where, depth, depth_expected))
-            if entries == 0 and not is_root:
-                raise FormatError('%s: empty non-root node' % where)
             if depth == 0:
                 for k in range(entries):
                     lblk, ln, hi, lo = struct.unpack_from('<IHHI', buf, 12 + 12 * k)
@@ -955,7 +957,7 @@ class RefFS:
 
         def add(lblk, pblk):
             if pblk < fdb or pblk >= bc:
-                raise FormatError('%s: block pointer %d (lblk %d) outside [%d, %d)' % (what, pblk, lblk, fdb, bc))
+                raise FormatError('%s: block pointer %d (lblk %d) outside [%d, %d)' % (what, pblk, lblk, fdb, bc), 'range')
             if runs:
                 l0, p0, n0 = runs[-1]
                 if l0 + n0 == lblk and p0 + n0 == pblk:
@@ -965,7 +967,7 @@ class RefFS:
 
         def walk(blk, level, lbase):
             if blk < fdb or blk >= bc:
-                raise FormatError('%s: level-%d indirect block %d outside [%d, %d)' % (what, level, blk, fdb, bc))
+                raise FormatError('%s: level-%d indirect block %d outside [%d, %d)' % (what, level, blk, fdb, bc), 'range')
             if blk in seen:
                 raise FormatError('%s: indirect block %d referenced twice' % (what, blk))
             seen.add(blk)
@@ -1084,3 +1086,1190 @@ class RefFS:
             if e['index'] == 7 and e['name'] == b'data':
                 return d + self._xattr_value(inode, e)
         raise FormatError('inode %d: inline data flag without system.data attribute' % inode.ino)
+
+    # ---------------------------------------------------------------- directories
+    def _rec_len(self, v):
+        if self.block_size < 65536:
+            return v
+        if v == 65535 or v == 0:
+            return self.block_size
+        return (v & 65532) | ((v & 3) << 16)
+
+    def parse_dir_block(self, buf, strict=True, what='dir block', start=0, end=None):
+        """Parse one linear directory block.  Returns list of (offset, ino, rec_len, name_len, file_type, name).
+
+        With strict=True a malformed entry raises FormatError; otherwise parsing stops there.
+        """
+        out = []
+        pos = start
+        if end is None:
+            end = len(buf)
+        min_len = 12 if end - start == self.block_size else 8
+        while pos < end:
+            if end - pos < 8:
+                if strict:
+                    raise FormatError('%s: %d stray bytes at offset %d' % (what, end - pos, pos))
+                break
+            ino, rl, nl, ft = struct.unpack_from('<IHBB', buf, pos)
+            rl = self._rec_len(rl) if end - start == self.block_size else rl
+            bad = None
+            if rl < 8 or rl & 3:
+                bad = 'rec_len %d invalid' % rl
+            elif pos + rl > end:
+                bad = 'rec_len %d crosses the block end' % rl
+            elif nl + 8 > rl:
+                bad = 'name_len %d does not fit rec_len %d' % (nl, rl)
+            elif ((8 + nl + 3) & ~3) > rl:
+                bad = 'name_len %d does not fit rec_len %d' % (nl, rl)
+            elif rl < min_len:
+                bad = 'rec_len %d too small' % rl
+            if bad:
+                if strict:
+                    raise FormatError('%s: entry at offset %d: %s' % (what, pos, bad))
+                break
+            out.append((pos, ino, rl, nl, ft, buf[pos + 8:pos + 8 + nl]))
+            pos += rl
+        return out
+
+    def dir_blocks(self, inode):
+        """[(lblk, pblk)] for the blocks of a directory within i_size (holes left out)."""
+        ext, _t = self.extents(inode)
+        bs = self.block_size
+        nblk = (inode.size + bs - 1) // bs
+        out = []
+        for l, p, n, u in ext:
+            if l >= nblk:
+                break
+            n = min(n, nblk - l)
+            if n > 0x100000:
+                raise FormatError('inode %d: directory extent too long' % inode.ino)
+            for k in range(n):
+                out.append((l + k, p + k))
+        return out
+
+    def _inline_dir(self, inode):
+        """(parent, [(area_offset, buf)]) for an inline-data directory."""
+        d = self._inline_data(inode)
+        size = min(inode.size, len(d))
+        parent = _u32(d, 0)[0]
+        areas = [(4, d[:min(60, size)])]
+        if size > 60:
+            areas.append((60, d[60:size]))
+        return parent, areas
+
+    def dir_entries(self, inode, strict=False):
+        """[(name, ino, file_type, lblk, offset)] in on-disk order; unused (inode 0) entries skipped."""
+        if inode.mode & S_IFMT != S_IFDIR:
+            raise FormatError('inode %d is not a directory' % inode.ino)
+        out = []
+        if self.has_inline_data(inode):
+            parent, areas = self._inline_dir(inode)
+            out.append((b'.', inode.ino, 2, 0, 0))
+            out.append((b'..', parent, 2, 0, 0))
+            for k, (aoff, buf) in enumerate(areas):
+                start = 4 if k == 0 else 0
+                for (pos, ino, rl, nl, ft, name) in self.parse_dir_block(
+                        buf, strict, 'inode %d inline area %d' % (inode.ino, k), start):
+                    if ino:
+                        out.append((name, ino, ft, 0, (aoff - start if k else 0) + pos))
+            return out
+        for lblk, pblk in self.dir_blocks(inode):
+            buf = self.read_block(pblk)
+            for (pos, ino, rl, nl, ft, name) in self.parse_dir_block(
+                    buf, strict, 'inode %d dir block %d (lblk %d)' % (inode.ino, pblk, lblk)):
+                if ino:
+                    out.append((name, ino, ft, lblk, pos))
+        return out
+
+    def dir_hash_info(self, inode):
+        """(hash_version_effective, seed) used for names in this directory, or None when hashes cannot be computed."""
+        return None
+
+    def htree(self, inode):
+        """Parse the hash tree index of a directory, or return None when it is not indexed.
+
+        Result: dict(hash_version, indirect_levels, info_length, unused_flags, nodes=[node...], leaves=[...]) where
+        node = dict(lblk, pblk, level, count_offset, limit, count, entries=[(hash, lblk)], lo, hi) and
+        leaves = [(lblk, lo_hash, hi_hash_or_None)].
+        """
+        if not (inode.flags & FL_INDEX) or not self.has('dir_index') or self.has_inline_data(inode):
+            return None
+        if inode.mode & S_IFMT != S_IFDIR:
+            return None
+        bs = self.block_size
+        bmap = dict(self.dir_blocks(inode))
+        if 0 not in bmap:
+            raise FormatError('inode %d: indexed directory without block 0' % inode.ino)
+        root = self.read_block(bmap[0])
+        what = 'inode %d htree' % inode.ino
+        # '.' entry of 12 bytes, '..' entry covering the rest
+        ino0, rl0, nl0, _ft = struct.unpack_from('<IHBB', root, 0)
+        ino1, rl1, nl1, _ft = struct.unpack_from('<IHBB', root, 12)
+        if rl0 != 12 or nl0 != 1 or root[8:9] != b'.':
+            raise FormatError('%s root: bad "." entry' % what)
+        if self._rec_len(rl1) != bs - 12 or nl1 != 2 or root[20:22] != b'..':
+            raise FormatError('%s root: bad ".." entry (rec_len %d)' % (what, rl1))
+        zero, hv, ilen, levels, uflags = struct.unpack_from('<IBBBB', root, 0x18)
+        if zero != 0:
+            raise FormatError('%s root: reserved_zero is %#x' % (what, zero))
+        if ilen != 8:
+            raise FormatError('%s root: info_length %d != 8' % (what, ilen))
+        if hv > 6:
+            raise FormatError('%s root: hash_version %d unknown' % (what, hv))
+        maxlev = 3 if self.has('large_dir') else 2
+        if levels >= maxlev:
+            raise FormatError('%s root: indirect_levels %d >= %d' % (what, levels, maxlev))
+        tail = 8 if self.csum else 0
+        res = dict(hash_version=hv, indirect_levels=levels, info_length=ilen, unused_flags=uflags,
+                   nodes=[], leaves=[])
+        seen = {0}
+
+        def node(lblk, buf, level, lo, hi):
+            co = 0x20 if lblk == 0 else 8
+            if lblk != 0:
+                fino, frl = struct.unpack_from('<IH', buf, 0)
+                if fino != 0 or self._rec_len(frl) != bs:
+                    raise FormatError('%s node lblk %d: fake dirent wrong (inode %d rec_len %d)' % (what, lblk, fino, frl))
+            limit, count = struct.unpack_from('<HH', buf, co)
+            expect = (bs - co - tail) // 8
+            if limit != expect:
+                raise FormatError('%s node lblk %d: limit %d, expected %d' % (what, lblk, limit, expect))
+            if count == 0 or count > limit:
+                raise FormatError('%s node lblk %d: count %d not in 1..%d' % (what, lblk, count, limit))
+            ents = []
+            for k in range(count):
+                h, b = struct.unpack_from('<II', buf, co + 8 * k)
+                if k == 0:
+                    h = lo
+                b &= 0x0fffffff
+                ents.append((h, b))
+            for k in range(1, count):
+                if ents[k][0] < ents[k - 1][0]:
+                    raise FormatError('%s node lblk %d: hash %#x at entry %d out of order' % (what, lblk, ents[k][0], k))
+                if ents[k][0] < lo or (hi is not None and ents[k][0] > hi):
+                    raise FormatError('%s node lblk %d: hash %#x at entry %d outside parent range' % (what, lblk, ents[k][0], k))
+            nd = dict(lblk=lblk, pblk=bmap[lblk], level=level, count_offset=co, limit=limit, count=count,
+                      entries=ents, lo=lo, hi=hi)
+            res['nodes'].append(nd)
+            for k, (h, b) in enumerate(ents):
+                nhi = ents[k + 1][0] if k + 1 < count else hi
+                if b in seen:
+                    raise FormatError('%s node lblk %d: block %d referenced twice' % (what, lblk, b))
+                seen.add(b)
+                if b not in bmap:
+                    raise FormatError('%s node lblk %d: entry %d points to unmapped block %d' % (what, lblk, k, b))
+                if level < levels:
+                    node(b, self.read_block(bmap[b]), level + 1, h, nhi)
+                else:
+                    res['leaves'].append((b, h, nhi))
+
+        node(0, root, 0, 0, None)
+        return res
+
+    def hash_params(self, hv):
+        """(version, seed, unsigned) to feed dirhash() for on-disk hash_version hv."""
+        unsigned = bool(self.sb['s_flags'] & 2)
+        return hv, self.sb['s_hash_seed'], unsigned
+
+    # ---------------------------------------------------------------- extended attributes
+    def _xattr_parse(self, buf, start, base, limit, what):
+        """Entries from buf[start:], value offsets relative to base, nothing may go beyond limit."""
+        out = []
+        pos = start
+        n = 0
+        while True:
+            if pos + 4 > limit:
+                raise FormatError('%s: entry table runs past the end' % what)
+            if _u32(buf, pos)[0] == 0:
+                break
+            if pos + 16 > limit:
+                raise FormatError('%s: entry header runs past the end' % what)
+            nl, idx, voff, vinum, vsize, h = struct.unpack_from('<BBHIII', buf, pos)
+            if pos + 16 + nl > limit:
+                raise FormatError('%s: entry name runs past the end' % what)
+            name = buf[pos + 16:pos + 16 + nl]
+            if vinum == 0 or not self.has('ea_inode'):
+                vinum = 0
+                if vsize and (base + voff + vsize > limit or base + voff < start):
+                    raise FormatError('%s: value of %r at %d+%d outside the attribute area' % (what, name, voff, vsize))
+            out.append(dict(index=idx, name=name, value_offs=voff, value_inum=vinum, value_size=vsize,
+                            hash=h, entry_offset=pos, base=base, where=what))
+            pos += (16 + nl + 3) & ~3
+            n += 1
+            if n > 4096:
+                raise FormatError('%s: too many entries' % what)
+        return out, pos
+
+    def xattr_layout(self, inode):
+        """Details of both attribute areas of an inode."""
+        c = self._cache.setdefault('xl', {})
+        r = c.get(inode.ino)
+        if r is not None and r['_raw'] is inode.raw:
+            return r
+        res = dict(ibody=[], block=[], ibody_present=False, block_nr=0, h_refcount=None, h_blocks=None,
+                   h_hash=None, h_checksum=None, _raw=inode.raw, _ibuf=None, _bbuf=None)
+        isz = self.inode_size
+        if isz > 128:
+            ex = inode.extra_isize
+            start = 128 + ex
+            if ex >= 0 and ex <= isz - 128 and start + 4 <= isz and ex % 4 == 0:
+                if _u32(inode.raw, start)[0] == XATTR_MAGIC:
+                    res['ibody_present'] = True
+                    res['_ibuf'] = inode.raw
+                    ents, end = self._xattr_parse(inode.raw, start + 4, start + 4, isz,
+                                                  'inode %d in-inode xattrs' % inode.ino)
+                    res['ibody'] = ents
+        if inode.file_acl:
+            b = inode.file_acl
+            if b < self.first_data_block or b >= self.blocks_count:
+                raise FormatError('inode %d: i_file_acl %d out of range' % (inode.ino, b), 'range')
+            buf = self.read_block(b)
+            magic, refc, nblk, hh, cs = struct.unpack_from('<IIIII', buf, 0)
+            if magic != XATTR_MAGIC:
+                raise FormatError('inode %d: xattr block %d has bad magic %#x' % (inode.ino, b, magic))
+            if nblk != 1:
+                raise FormatError('inode %d: xattr block %d has h_blocks %d' % (inode.ino, b, nblk))
+            res.update(block_nr=b, h_refcount=refc, h_blocks=nblk, h_hash=hh, h_checksum=cs, _bbuf=buf)
+            ents, end = self._xattr_parse(buf, 32, 0, self.block_size, 'inode %d xattr block %d' % (inode.ino, b))
+            res['block'] = ents
+        c[inode.ino] = res
+        return res
+
+    def _xattr_entries(self, inode):
+        l = self.xattr_layout(inode)
+        return l['ibody'] + l['block']
+
+    def _xattr_value(self, inode, e, depth=0):
+        if e['value_inum']:
+            vi = self.read_inode(e['value_inum'])
+            if not vi.flags & FL_EA_INODE:
+                raise FormatError('inode %d: xattr value inode %d lacks EA_INODE flag' % (inode.ino, vi.ino))
+            if e['value_size'] > (1 << 24):
+                raise FormatError('inode %d: xattr value size %d too large' % (inode.ino, e['value_size']))
+            v = self.read_file(vi, limit=1 << 26)
+            if len(v) < e['value_size']:
+                raise FormatError('inode %d: xattr value inode %d shorter than e_value_size' % (inode.ino, vi.ino))
+            return v[:e['value_size']]
+        l = self.xattr_layout(inode)
+        buf = l['_ibuf'] if e['where'].endswith('in-inode xattrs') else l['_bbuf']
+        o = e['base'] + e['value_offs']
+        return buf[o:o + e['value_size']]
+
+    def xattrs(self, inode):
+        out = {}
+        for e in self._xattr_entries(inode):
+            name = _XATTR_PREFIX.get(e['index'], b'unknown%d.' % e['index']) + e['name']
+            out[name] = self._xattr_value(inode, e)
+        return out
+
+    # ---------------------------------------------------------------- namespace
+    def tree(self):
+        """dict path -> TreeEntry, walking from the root.  Problems met on the way are kept in self.tree_problems."""
+        c = self._cache.get('tree')
+        if c is not None:
+            return c
+        problems = []
+        res = {}
+        root = self.read_inode(2)
+        res[b'/'] = TreeEntry(b'/', 2, root, 2, None)
+        visited = {2}
+        stack = [(b'/', root)]
+        count = 0
+        while stack:
+            path, di = stack.pop()
+            try:
+                ents = self.dir_entries(di, strict=False)
+            except FormatError as e:
+                problems.append((di.ino, str(e)))
+                continue
+            for name, ino, ft, lblk, off in ents:
+                if name in (b'.', b'..'):
+                    continue
+                p = (path if path != b'/' else b'') + b'/' + name
+                if p in res:
+                    problems.append((di.ino, 'duplicate name %r' % p))
+                    continue
+                try:
+                    ci = self.read_inode(ino)
+                except FormatError as e:
+                    problems.append((di.ino, 'entry %r: %s' % (p, e)))
+                    continue
+                res[p] = TreeEntry(p, ino, ci, ft, di.ino)
+                count += 1
+                if count > 4000000:
+                    raise FormatError('namespace walk exceeds 4M entries')
+                if ci.mode & S_IFMT == S_IFDIR:
+                    if ino in visited:
+                        problems.append((di.ino, 'directory inode %d reached a second time as %r' % (ino, p)))
+                        continue
+                    visited.add(ino)
+                    stack.append((p, ci))
+        self.tree_problems = problems
+        self._cache['tree'] = res
+        return res
+
+    def tree_digest(self, include_mtime=True, skip=(b'/lost+found',), max_hash_size=1 << 31):
+        """(hexdigest, {path: record}) - see the module documentation for what a record holds."""
+        t = self.tree()
+        recs = {}
+        h = hashlib.sha256()
+        skip = tuple(skip or ())
+
+        def skipped(p):
+            for s in skip:
+                if p == s or p.startswith(s + b'/'):
+                    return True
+            return False
+
+        for p in sorted(t):
+            e = t[p]
+            i = e.inode
+            fmt = i.mode & S_IFMT
+            r = {'type': fmt, 'mode': i.mode & 0o7777, 'uid': i.uid, 'gid': i.gid, 'links': i.links_count,
+                 'mtime': i.mtime, 'ino': e.ino}
+            try:
+                if fmt == S_IFREG:
+                    r['size'] = i.size
+                    r['holes'] = self.hole_map(i)
+                    hh = hashlib.sha256()
+                    if i.size > max_hash_size:
+                        # too sparse/large to stream: hash size, map and mapped bytes instead
+                        hh.update(b'summarised:%d:' % i.size)
+                        bs = self.block_size
+                        for l, n in r['holes']:
+                            hh.update(b'%d+%d;' % (l, n))
+                        for l, pb, n, u in self.extents(i)[0]:
+                            if not u:
+                                hh.update(self.data[pb * bs:(pb + n) * bs])
+                        r['content_mode'] = 'summarised'
+                    else:
+                        for ch in self.file_chunks(i):
+                            hh.update(ch)
+                    r['sha256'] = hh.hexdigest()
+                elif fmt == S_IFLNK:
+                    r['size'] = i.size
+                    r['target'] = self.readlink(i)
+                elif fmt in (S_IFCHR, S_IFBLK):
+                    r['rdev'] = self.dev_numbers(i)
+                xa = []
+                for k, v in sorted(self.xattrs(i).items()):
+                    if k == b'system.data':
+                        continue
+                    xa.append((k, v if len(v) <= 64 else b'sha256:' + hashlib.sha256(v).hexdigest().encode()))
+                r['xattrs'] = xa
+            except FormatError as ex:
+                r['error'] = str(ex)
+            recs[p] = r
+            if skipped(p):
+                continue
+            parts = [p, b'%o' % fmt, b'%o' % r['mode'], b'%d' % r['uid'], b'%d' % r['gid'], b'%d' % r['links']]
+            if include_mtime:
+                parts.append(b'm%d' % r['mtime'])
+            if 'size' in r:
+                parts.append(b's%d' % r['size'])
+            if 'sha256' in r:
+                parts.append(r['sha256'].encode())
+            if 'target' in r:
+                parts.append(b't' + r['target'])
+            if 'rdev' in r:
+                parts.append(b'd%d,%d' % r['rdev'])
+            for k, v in r.get('xattrs', ()):
+                parts.append(b'x' + k)
+                parts.append(v)
+            if 'error' in r:
+                parts.append(b'error')
+            for x in parts:
+                h.update(b'%d:' % len(x))
+                h.update(x)
+            h.update(b'\n')
+        return h.hexdigest(), recs
+
+    # ---------------------------------------------------------------- accounting and checks
+    def special_inodes(self):
+        """dict ino -> role for inodes that are in use without being named by a directory."""
+        sb = self.sb
+        s = {}
+        for ino in range(1, min(self.first_ino, self.inodes_count + 1)):
+            s[ino] = 'reserved'
+        s[1] = 'badblocks'
+        s[2] = 'root'
+        if self.has('resize_inode'):
+            s[7] = 'resize'
+        if self.has('has_journal') and sb['s_journal_inum']:
+            s[sb['s_journal_inum']] = 'journal'
+        if self.has('quota'):
+            for k in ('s_usr_quota_inum', 's_grp_quota_inum', 's_prj_quota_inum'):
+                if sb[k]:
+                    s[sb[k]] = 'quota'
+        if self.has('orphan_file') and sb['s_orphan_file_inum']:
+            s[sb['s_orphan_file_inum']] = 'orphan_file'
+        return {k: v for k, v in s.items() if 1 <= k <= self.inodes_count}
+
+    def _expand_bitmap(self, buf, nbits):
+        t = self._cache.get('bit_table')
+        if t is None:
+            t = [bytes((x >> k) & 1 for k in range(8)) for x in range(256)]
+            self._cache['bit_table'] = t
+        nbytes = (nbits + 7) // 8
+        return b''.join([t[x] for x in buf[:nbytes]])[:nbits]
+
+    def _scan(self):
+        c = self._cache.get('scan')
+        if c is not None:
+            return c
+        res = self._do_scan()
+        self._cache['scan'] = res
+        return res
+
+    def _do_scan(self):
+        out = []                      # complaints
+
+        def add(rule, detail, obj=None):
+            out.append(Complaint(rule, detail, obj))
+
+        bs = self.block_size
+        sb = self.sb
+        csum = self.csum
+        cbits = self.cluster_bits
+        res = dict(complaints=out, owners={}, kinds={}, inuse=set(), counts={}, specials={}, xrefs={})
+
+        # ---- R5: superblock, descriptors, MMP
+        if csum:
+            if sb['s_checksum_type'] != 1:
+                add('R5.superblock', 's_checksum_type %d is not crc32c' % sb['s_checksum_type'], ('superblock', 0))
+            c = crc32c(0xffffffff, self.sb_raw[:0x3FC])
+            if c != sb['s_checksum']:
+                add('R5.superblock', 'stored %#x computed %#x' % (sb['s_checksum'], c), ('superblock', 0))
+        gds = []
+        for g in range(self.group_count):
+            try:
+                gd = self.group_desc(g)
+            except FormatError as e:
+                add('R4.group_desc', str(e), ('group', g))
+                gds.append(None)
+                continue
+            gds.append(gd)
+            raw = gd['raw']
+            if csum:
+                c = crc32c(self.csum_seed, struct.pack('<I', g))
+                c = crc32c(c, raw[:0x1E])
+                c = crc32c(c, b'\0\0')
+                if self.desc_size > 32:
+                    c = crc32c(c, raw[0x20:])
+                c &= 0xffff
+                if c != gd['bg_checksum']:
+                    add('R5.group_desc', 'group %d stored %#x computed %#x' % (g, gd['bg_checksum'], c), ('group', g))
+            elif self.has('uninit_bg'):
+                c = crc16(0xffff, sb['s_uuid'])
+                c = crc16(c, struct.pack('<I', g))
+                c = crc16(c, raw[:0x1E])
+                if self.desc_size > 32 and self.has('64bit'):
+                    c = crc16(c, raw[0x20:])
+                if c != gd['bg_checksum']:
+                    add('R5.group_desc', 'group %d stored %#x computed %#x (crc16)' % (g, gd['bg_checksum'], c), ('group', g))
+        fm = self.fixed_metadata()
+        for g, msg in self._cache.get('fixed_bad', ()):
+            add('R1.metadata_location', 'group %d: %s' % (g, msg), ('group', g))
+        if self.has('mmp'):
+            b = sb['s_mmp_block']
+            if fm.get(b, ('',))[0] == 'mmp':
+                try:
+                    mb = self.read_block(b)
+                    if _u32(mb, 0)[0] != MMP_MAGIC:
+                        add('R4.mmp', 'MMP block %d has bad magic %#x' % (b, _u32(mb, 0)[0]), ('block', b))
+                    elif csum:
+                        c = crc32c(self.csum_seed, mb[:0x3FC])
+                        if c != _u32(mb, 0x3FC)[0]:
+                            add('R5.mmp', 'stored %#x computed %#x' % (_u32(mb, 0x3FC)[0], c), ('block', b))
+                except FormatError as e:
+                    add('R4.mmp', str(e), ('block', b))
+
+        # ---- on-disk bitmaps (expanded to a byte per bit), bitmap checksums
+        ipg = self.inodes_per_group
+        cpg = self.clusters_per_group
+        bbits = []
+        ibits = []
+        flags = []
+        for g in range(self.group_count):
+            gd = gds[g]
+            fl = gd['bg_flags'] if (gd and self._uses_bg_flags()) else 0
+            flags.append(fl)
+            bb = ib = None
+            if gd is not None:
+                if not fl & BG_BLOCK_UNINIT and fm.get(gd['bg_block_bitmap'], ('',))[0] == 'block_bitmap':
+                    try:
+                        buf = self.read_block(gd['bg_block_bitmap'])
+                        bb = self._expand_bitmap(buf, min(cpg, bs * 8))
+                        if csum:
+                            c = crc32c(self.csum_seed, buf[:cpg // 8])
+                            if self.desc_size < 64:
+                                c &= 0xffff
+                            if c != gd['bg_block_bitmap_csum']:
+                                add('R5.block_bitmap', 'group %d stored %#x computed %#x' % (
+                                    g, gd['bg_block_bitmap_csum'], c), ('group', g))
+                    except FormatError as e:
+                        add('R4.block_bitmap', str(e), ('group', g))
+                if not fl & BG_INODE_UNINIT and fm.get(gd['bg_inode_bitmap'], ('',))[0] == 'inode_bitmap':
+                    try:
+                        buf = self.read_block(gd['bg_inode_bitmap'])
+                        ib = self._expand_bitmap(buf, ipg)
+                        if csum:
+                            c = crc32c(self.csum_seed, buf[:ipg // 8])
+                            if self.desc_size < 64:
+                                c &= 0xffff
+                            if c != gd['bg_inode_bitmap_csum']:
+                                add('R5.inode_bitmap', 'group %d stored %#x computed %#x' % (
+                                    g, gd['bg_inode_bitmap_csum'], c), ('group', g))
+                    except FormatError as e:
+                        add('R4.inode_bitmap', str(e), ('group', g))
+            bbits.append(bb)
+            ibits.append(ib)
+
+        # ---- pass over the inode tables: which slots look allocated
+        specials = self.special_inodes()
+        res['specials'] = specials
+        alloc = {}                    # ino -> Inode for slots with links_count > 0
+        data = self.data
+        isz = self.inode_size
+        for g in range(self.group_count):
+            gd = gds[g]
+            if gd is None or flags[g] & BG_INODE_UNINIT:
+                continue
+            it = gd['bg_inode_table']
+            if fm.get(it, ('',))[0] != 'inode_table':
+                continue
+            base = it * bs
+            if base + ipg * isz > len(data):
+                add('R4.inode_table', 'inode table of group %d beyond the end of the image' % g, ('group', g))
+                continue
+            ino = g * ipg
+            for off in range(base, base + ipg * isz, isz):
+                ino += 1
+                if data[off + 0x1A] or data[off + 0x1B]:
+                    alloc[ino] = self._parse_inode(ino, off)
+        self._cache.setdefault('inodes', {}).update(alloc)
+
+        def get_inode(ino):
+            i = alloc.get(ino)
+            if i is None:
+                i = self.read_inode(ino)
+            return i
+
+        # ---- namespace walk
+        counts = res['counts']        # ino -> number of directory entries naming it
+        dirinfo = {}                  # dir ino -> parent ino
+        dir_blocks_seen = {}          # dir ino -> [(lblk, pblk, is_index)]
+        try:
+            root = get_inode(2)
+        except FormatError as e:
+            root = None
+            add('R3.root', str(e), ('inode', 2))
+        if root is not None and root.mode & S_IFMT != S_IFDIR:
+            add('R3.root', 'root inode is not a directory (mode %o)' % root.mode, ('inode', 2))
+            root = None
+        stack = []
+        if root is not None:
+            dirinfo[2] = 2
+            stack.append(root)
+        nent = 0
+        icount = self.inodes_count
+        while stack:
+            di = stack.pop()
+            dino = di.ino
+            parent = dirinfo[dino]
+            try:
+                ents = self._dir_entries_checked(di, add)
+            except FormatError as e:
+                add('R4.extent' if e.kind != 'range' else 'R1.range', str(e), ('inode', dino))
+                continue
+            if len(ents) < 1 or ents[0][0] != b'.' or ents[0][1] != dino:
+                add('R3.dot', 'directory %d: first entry is not "." -> %d' % (dino, dino), ('inode', dino))
+            if len(ents) < 2 or ents[1][0] != b'..' or ents[1][1] != parent:
+                add('R3.dotdot', 'directory %d: second entry is not ".." -> %d (found %r)' % (
+                    dino, parent, ents[1][:2] if len(ents) > 1 else None), ('inode', dino))
+            for k, (name, ino, ft, lblk, off) in enumerate(ents):
+                nent += 1
+                if ino < 1 or ino > icount:
+                    add('R3.entry_range', 'directory %d entry %r names inode %d (out of range)' % (dino, name, ino),
+                        ('inode', dino))
+                    continue
+                counts[ino] = counts.get(ino, 0) + 1
+                if k < 2 and name in (b'.', b'..'):
+                    continue
+                if name in (b'.', b'..'):
+                    add('R3.dot', 'directory %d: extra %r entry at position %d' % (dino, name, k), ('inode', dino))
+                    continue
+                ci = alloc.get(ino)
+                if ci is None:
+                    add('R3.entry_unused', 'directory %d entry %r names inode %d which is not in use (links_count 0)' % (
+                        dino, name, ino), ('inode', ino))
+                    continue
+                if ci.mode == 0 or ci.dtime != 0:
+                    add('R3.entry_unused', 'directory %d entry %r names inode %d with mode %o dtime %d' % (
+                        dino, name, ino, ci.mode, ci.dtime), ('inode', ino))
+                    if ci.mode == 0:
+                        continue
+                if ci.mode & S_IFMT == S_IFDIR:
+                    if ino in dirinfo:
+                        add('R3.dir_hardlink', 'directory inode %d named from %d and from %d' % (ino, dirinfo[ino], dino),
+                            ('inode', ino))
+                        continue
+                    dirinfo[ino] = dino
+                    stack.append(ci)
+        res['dirinfo'] = dirinfo
+
+        # ---- which inodes are in use
+        inuse = res['inuse']
+        work = []
+        for ino in specials:
+            inuse.add(ino)
+        for ino in counts:
+            if ino in alloc and alloc[ino].mode != 0:
+                inuse.add(ino)
+        pending_ea = []
+        for ino, i in alloc.items():
+            if ino in inuse:
+                continue
+            if i.flags & FL_EA_INODE and self.has('ea_inode'):
+                pending_ea.append(ino)
+                continue
+            if i.mode != 0 and i.dtime == 0:
+                add('R3.unreachable', 'inode %d (mode %o, links_count %d) is not reachable from the root' % (
+                    ino, i.mode, i.links_count), ('inode', ino))
+                inuse.add(ino)
+        res['alloc'] = alloc
+
+        # ---- per-inode structure, ownership
+        owners = res['owners']        # blk -> [(ino, kind)]
+        xrefs = res['xrefs']          # xattr blk -> [ino...]
+        ea_refs = {}                  # ea inode -> number of references
+
+        def own(blk, ino, kind):
+            l = owners.get(blk)
+            if l is None:
+                owners[blk] = [(ino, kind)]
+            else:
+                l.append((ino, kind))
+
+        def do_inode(ino):
+            try:
+                i = get_inode(ino)
+            except FormatError as e:
+                add('R4.inode', str(e), ('inode', ino))
+                return
+            role = specials.get(ino)
+            if role == 'reserved' and i.mode == 0 and i.links_count == 0:
+                return
+            if ino == 1 and not any(i.i_block):
+                return
+            if csum and (ino not in specials or i.mode != 0 or i.links_count):
+                self._check_inode_csum(i, add)
+            if isz > 128 and (i.extra_isize > isz - 128 or i.extra_isize & 3):
+                add('R4.inode', 'inode %d: i_extra_isize %d invalid' % (ino, i.extra_isize), ('inode', ino))
+            blocks = []
+            fmt = i.mode & S_IFMT
+            ext = tree = ()
+            mapped_ok = True
+            if self.has_block_map(i) or role in ('badblocks', 'resize'):
+                try:
+                    if role in ('badblocks', 'resize') and not i.flags & FL_EXTENTS:
+                        ext, tree = self._block_map(i)
+                    else:
+                        ext, tree = self.extents(i)
+                except FormatError as e:
+                    mapped_ok = False
+                    add('R1.range' if e.kind == 'range' else 'R4.extent', str(e), ('inode', ino))
+                kind = {'journal': 'journal', 'quota': 'quota', 'orphan_file': 'orphan_file',
+                        'resize': 'reserved_gdt', 'badblocks': 'badblock'}.get(role)
+                if kind is None:
+                    kind = 'dir' if fmt == S_IFDIR else 'data'
+                tkind = 'extent_tree' if i.flags & FL_EXTENTS else 'indirect'
+                if role == 'resize':
+                    tkind = 'reserved_gdt'
+                for b in tree:
+                    own(b, ino, tkind)
+                    blocks.append(b)
+                for l, p, n, u in ext:
+                    for b in range(p, p + n):
+                        own(b, ino, kind)
+                    blocks.extend(range(p, p + n))
+                if csum and i.flags & FL_EXTENTS and tree:
+                    seed = self.inode_seed(i)
+                    for b in tree:
+                        buf = self.read_block(b)
+                        emax = _u16(buf, 4)[0]
+                        toff = 12 + 12 * emax
+                        if toff + 4 > bs:
+                            continue
+                        c = crc32c(seed, buf[:toff])
+                        if c != _u32(buf, toff)[0]:
+                            add('R5.extent_block', 'inode %d extent block %d stored %#x computed %#x' % (
+                                ino, b, _u32(buf, toff)[0], c), ('block', b))
+            # xattrs
+            try:
+                xl = self.xattr_layout(i)
+                if xl['block_nr']:
+                    xb = xl['block_nr']
+                    first = xb not in xrefs
+                    xrefs.setdefault(xb, []).append(ino)
+                    own(xb, ino, 'xattr')
+                    blocks.append(xb)
+                    if first and csum:
+                        buf = bytearray(xl['_bbuf'])
+                        buf[0x10:0x14] = b'\0\0\0\0'
+                        c = crc32c(crc32c(self.csum_seed, struct.pack('<Q', xb)), bytes(buf))
+                        if c != xl['h_checksum']:
+                            add('R5.xattr_block', 'block %d stored %#x computed %#x' % (xb, xl['h_checksum'], c),
+                                ('block', xb))
+                for e in xl['ibody'] + xl['block']:
+                    if e['value_inum']:
+                        ea_refs[e['value_inum']] = ea_refs.get(e['value_inum'], 0) + 1
+            except FormatError as e:
+                add('R1.range' if e.kind == 'range' else 'R4.xattr', str(e), ('inode', ino))
+            # i_blocks
+            if mapped_ok and role not in ('badblocks',):
+                if cbits:
+                    units = len({b >> cbits for b in blocks}) << cbits
+                else:
+                    units = len(blocks)
+                expect = units * (bs // 512)
+                if i.blocks != expect:
+                    add('R4.i_blocks', 'inode %d: i_blocks %d, owned blocks say %d' % (ino, i.blocks, expect),
+                        ('inode', ino))
+            # directories
+            if fmt == S_IFDIR and mapped_ok and not self.has_inline_data(i):
+                if i.size % bs or i.size == 0:
+                    add('R4.dir_size', 'directory %d: i_size %d not a positive multiple of the block size' % (
+                        ino, i.size), ('inode', ino))
+                elif ext:
+                    last = ext[-1][0] + ext[-1][2]
+                    nblk = i.size // bs
+                    if nblk > last or last - nblk > sb['s_prealloc_dir_blocks']:
+                        add('R4.dir_size', 'directory %d: i_size %d but blocks are mapped up to %d' % (
+                            ino, i.size, last), ('inode', ino))
+                if ino in dirinfo or ino not in counts:
+                    try:
+                        self._check_dir_index(i, add)
+                    except FormatError as e:
+                        add('R4.htree', str(e), ('inode', ino))
+            if role == 'journal':
+                self._check_journal_sb(i, add)
+            if role == 'orphan_file' and mapped_ok:
+                self._check_orphan_file(i, ext, add)
+
+        done = set()
+        for ino in sorted(inuse):
+            do_inode(ino)
+            done.add(ino)
+        for ino in pending_ea:
+            if ino in ea_refs:
+                inuse.add(ino)
+                do_inode(ino)
+            else:
+                add('R3.unreachable', 'EA inode %d is not referenced by any attribute' % ino, ('inode', ino))
+                inuse.add(ino)
+                do_inode(ino)
+        for ino in ea_refs:
+            if ino not in alloc or not (1 <= ino <= icount):
+                add('R3.entry_unused', 'attribute value inode %d is not in use' % ino, ('inode', ino))
+        res['ea_inodes'] = set(ea_refs)
+
+        # ---- R1 ownership
+        shared_ok = self.has('shared_blocks')
+        fdb = self.first_data_block
+        for blk, l in owners.items():
+            m = fm.get(blk)
+            if m is not None:
+                for ino, kind in l:
+                    if m[0] in ('reserved_gdt', 'backup_reserved_gdt') and ino == 7 and specials.get(7) == 'resize':
+                        continue
+                    if ino == 1:
+                        continue
+                    add('R1.overlap_metadata', 'block %d (%s of inode %d) is %s of group %d' % (
+                        blk, kind, ino, m[0], m[1]), ('block', blk))
+            if len(l) > 1 and not shared_ok:
+                if all(k == 'xattr' for _i, k in l):
+                    continue
+                if specials.get(7) == 'resize' and all(i_ == 7 for i_, _k in l):
+                    # a reserved GDT block can show up on two levels of the resize inode's map
+                    pass
+                add('R1.multiply_claimed', 'block %d claimed by %s' % (
+                    blk, ', '.join('inode %d (%s)' % x for x in l[:6])), ('block', blk))
+        for xb, inos in xrefs.items():
+            try:
+                refc = _u32(self.read_block(xb), 4)[0]
+            except FormatError:
+                continue
+            if refc != len(inos):
+                add('R1.xattr_refcount', 'xattr block %d: h_refcount %d but %d inode(s) reference it' % (
+                    xb, refc, len(inos)), ('block', xb))
+        if cbits:
+            cown = {}
+            for blk, l in owners.items():
+                s = cown.setdefault(blk >> cbits, set())
+                for ino, kind in l:
+                    s.add(ino)
+            metac = {}
+            for blk, m in fm.items():
+                metac.setdefault(blk >> cbits, m)
+            for cl, s in cown.items():
+                if len(s) > 1 and not shared_ok:
+                    add('R1.multiply_claimed', 'cluster %d shared by inodes %s' % (cl, sorted(s)[:6]),
+                        ('block', cl << cbits))
+                m = metac.get(cl)
+                if m is not None and not (s <= {1, 7}):
+                    if not any((cl << cbits) + k in fm and (cl << cbits) + k in owners for k in range(1 << cbits)):
+                        add('R1.overlap_metadata', 'cluster %d of inode(s) %s also holds %s of group %d' % (
+                            cl, sorted(s)[:6], m[0], m[1]), ('block', cl << cbits))
+
+        # ---- R2 block bitmaps and counts
+        ncl_total = ((self.blocks_count - fdb + (1 << cbits) - 1) >> cbits)
+        used = bytearray(self.group_count * cpg)
+
+        def cl_index(blk):
+            return (blk - fdb) >> cbits
+
+        for blk in fm:
+            used[cl_index(blk)] = 1
+        meta_used = bytes(used)
+        for blk in owners:
+            if fdb <= blk < self.blocks_count:
+                used[cl_index(blk)] = 1
+        for g in range(self.group_count):
+            gd = gds[g]
+            if gd is None:
+                continue
+            n = (self.group_blocks(g) + (1 << cbits) - 1) >> cbits
+            lo = g * cpg
+            exp = used[lo:lo + n]
+            if flags[g] & BG_BLOCK_UNINIT:
+                mexp = meta_used[lo:lo + n]
+                if exp != mexp:
+                    k = next(x for x in range(n) if exp[x] != mexp[x])
+                    add('R2.block_uninit', 'group %d is BLOCK_UNINIT but cluster %d (block %d) is owned: %s' % (
+                        g, lo + k, fdb + ((lo + k) << cbits), owners.get(fdb + ((lo + k) << cbits))), ('group', g))
+                free = n - sum(mexp)
+            else:
+                bb = bbits[g]
+                if bb is None:
+                    continue
+                have = bb[:n]
+                if have != exp:
+                    diffs = [x for x in range(n) if have[x] != exp[x]]
+                    desc = ' '.join('%s%d' % ('+' if exp[x] else '-', fdb + ((lo + x) << cbits)) for x in diffs[:12])
+                    add('R2.block_bitmap', 'group %d: %d difference(s) (+ used but not marked, - marked but unused): %s' % (
+                        g, len(diffs), desc), ('group', g))
+                free = n - sum(have)
+                if n < cpg and g == self.group_count - 1:
+                    pad = bb[n:cpg]
+                    if sum(pad) != len(pad):
+                        add('R2.bitmap_padding', 'group %d: padding after the last block is not all set' % g, ('group', g))
+            if free != gd['bg_free_blocks_count']:
+                add('R2.free_blocks_count', 'group %d: bg_free_blocks_count %d, bitmap says %d' % (
+                    g, gd['bg_free_blocks_count'], free), ('group', g))
+
+        # ---- R2 inode bitmaps and counts
+        for g in range(self.group_count):
+            gd = gds[g]
+            if gd is None:
+                continue
+            lo = g * ipg
+            exp = bytearray(ipg)
+            ndirs = 0
+            for ino in range(lo + 1, lo + ipg + 1):
+                if ino in inuse:
+                    exp[ino - lo - 1] = 1
+            for ino in range(lo + 1, lo + ipg + 1):
+                if ino in inuse:
+                    i = alloc.get(ino)
+                    if i is not None and i.mode & S_IFMT == S_IFDIR:
+                        ndirs += 1
+            if flags[g] & BG_INODE_UNINIT:
+                if any(exp):
+                    add('R2.inode_uninit', 'group %d is INODE_UNINIT but inode %d is in use' % (
+                        g, lo + 1 + exp.index(1)), ('group', g))
+                free = ipg
+                ndirs_have = 0
+            else:
+                ib = ibits[g]
+                if ib is None:
+                    continue
+                if ib != exp:
+                    diffs = [x for x in range(ipg) if ib[x] != exp[x]]
+                    desc = ' '.join('%s%d' % ('+' if exp[x] else '-', lo + 1 + x) for x in diffs[:12])
+                    add('R2.inode_bitmap', 'group %d: %d difference(s) (+ in use but not marked, - marked but unused): %s' % (
+                        g, len(diffs), desc), ('group', g))
+                free = ipg - sum(ib)
+                ndirs_have = ndirs
+            if free != gd['bg_free_inodes_count']:
+                add('R2.free_inodes_count', 'group %d: bg_free_inodes_count %d, bitmap says %d' % (
+                    g, gd['bg_free_inodes_count'], free), ('group', g))
+            if ndirs_have != gd['bg_used_dirs_count']:
+                add('R2.used_dirs_count', 'group %d: bg_used_dirs_count %d, counted %d' % (
+                    g, gd['bg_used_dirs_count'], ndirs_have), ('group', g))
+
+        # ---- R3 link counts
+        dir_nlink = self.has('dir_nlink')
+        for ino in sorted(inuse):
+            if ino in specials and ino != 2:
+                continue
+            i = alloc.get(ino)
+            if i is None:
+                if ino == 2:
+                    add('R3.links', 'root inode has links_count 0', ('inode', 2))
+                continue
+            if i.flags & FL_EA_INODE and self.has('ea_inode'):
+                continue
+            n = counts.get(ino, 0)
+            if n == 0:
+                continue              # unreachable, already reported
+            if i.links_count != n:
+                if i.mode & S_IFMT == S_IFDIR and dir_nlink and i.links_count == 1:
+                    continue
+                add('R3.links', 'inode %d: i_links_count %d but %d directory entr%s name it' % (
+                    ino, i.links_count, n, 'y' if n == 1 else 'ies'), ('inode', ino))
+        return res
+
+    def _check_inode_csum(self, i, add):
+        raw = bytearray(i.raw)
+        raw[0x7C:0x7E] = b'\0\0'
+        wide = self.inode_size > 128 and i.extra_isize >= 4 and i.extra_isize <= self.inode_size - 128
+        if wide:
+            raw[0x82:0x84] = b'\0\0'
+        c = crc32c(self.inode_seed(i), bytes(raw))
+        if not wide:
+            c &= 0xffff
+        stored = i.checksum if wide else i.checksum & 0xffff
+        if c != stored:
+            add('R5.inode', 'inode %d stored %#x computed %#x' % (i.ino, stored, c), ('inode', i.ino))
+
+    def _dir_entries_checked(self, di, add):
+        """Like dir_entries(), but malformed blocks are reported through add() and the parsed blocks are remembered."""
+        dc = self._cache.setdefault('dirparse', {})
+        out = []
+        blocks = []
+        if self.has_inline_data(di):
+            try:
+                parent, areas = self._inline_dir(di)
+            except FormatError as e:
+                add('R4.inline_dir', str(e), ('inode', di.ino))
+                dc[di.ino] = blocks
+                return out
+            out.append((b'.', di.ino, 2, 0, 0))
+            out.append((b'..', parent, 2, 0, 0))
+            for k, (aoff, buf) in enumerate(areas):
+                start = 4 if k == 0 else 0
+                what = 'inode %d inline area %d' % (di.ino, k)
+                try:
+                    ents = self.parse_dir_block(buf, True, what, start)
+                except FormatError as e:
+                    add('R4.dirent', str(e), ('inode', di.ino))
+                    ents = self.parse_dir_block(buf, False, what, start)
+                for (pos, ino, rl, nl, ft, name) in ents:
+                    if ino:
+                        out.append((name, ino, ft, 0, pos))
+            dc[di.ino] = blocks
+            return out
+        for lblk, pblk in self.dir_blocks(di):
+            buf = self.read_block(pblk)
+            what = 'inode %d dir block %d (lblk %d)' % (di.ino, pblk, lblk)
+            try:
+                ents = self.parse_dir_block(buf, True, what)
+            except FormatError as e:
+                add('R4.dirent', str(e), ('block', pblk))
+                ents = self.parse_dir_block(buf, False, what)
+            blocks.append((lblk, pblk, buf, ents))
+            for (pos, ino, rl, nl, ft, name) in ents:
+                if ino:
+                    out.append((name, ino, ft, lblk, pos))
+        dc[di.ino] = blocks
+        return out
+
+    def _check_dir_index(self, i, add):
+        ino = i.ino
+        dc = self._cache.setdefault('dirparse', {})
+        if ino not in dc:
+            self._dir_entries_checked(i, add)
+        blocks = dc.get(ino, [])
+        bs = self.block_size
+        ht = None
+        try:
+            ht = self.htree(i)
+        except FormatError as e:
+            add('R4.htree', str(e), ('inode', ino))
+        index = {}
+        if ht is not None:
+            for nd in ht['nodes']:
+                index[nd['lblk']] = nd
+        seed = self.inode_seed(i) if self.csum else 0
+        byl = {}
+        for (lblk, pblk, buf, ents) in blocks:
+            byl[lblk] = (pblk, buf, ents)
+            if not self.csum:
+                continue
+            nd = index.get(lblk)
+            if nd is not None:
+                co, limit, count = nd['count_offset'], nd['limit'], nd['count']
+                toff = co + 8 * limit
+                if toff + 8 > bs:
+                    add('R4.htree', 'inode %d htree node lblk %d: no room for the checksum tail' % (ino, lblk),
+                        ('block', pblk))
+                    continue
+                c = crc32c(seed, buf[:co + 8 * count])
+                c = crc32c(c, buf[toff:toff + 4])
+                c = crc32c(c, b'\0\0\0\0')
+                st = _u32(buf, toff + 4)[0]
+                if c != st:
+                    add('R5.htree_node', 'inode %d htree node block %d stored %#x computed %#x' % (ino, pblk, st, c),
+                        ('block', pblk))
+            else:
+                t_ino, t_rl, t_nl, t_ft, t_cs = struct.unpack_from('<IHBBI', buf, bs - 12)
+                if t_ino != 0 or t_rl != 12 or t_nl != 0 or t_ft != 0xDE:
+                    if ht is None and i.flags & FL_INDEX and self.has('dir_index') and ents and \
+                            ents[0][1] == 0 and ents[0][2] == bs:
+                        continue      # index could not be parsed; cannot tell node from leaf
+                    add('R4.dir_tail', 'inode %d dir block %d has no checksum tail' % (ino, pblk), ('block', pblk))
+                    continue
+                c = crc32c(seed, buf[:bs - 12])
+                if c != t_cs:
+                    add('R5.dir_leaf', 'inode %d dir block %d stored %#x computed %#x' % (ino, pblk, t_cs, c),
+                        ('block', pblk))
+        if ht is None:
+            return
+        hv = ht['hash_version']
+        if hv == HASH_SIPHASH or i.flags & (FL_CASEFOLD | FL_ENCRYPT):
+            return                    # names are not hashed as stored; only the index structure is judged
+        hv, hseed, unsigned = self.hash_params(hv)
+        for (lblk, lo, hi) in ht['leaves']:
+            ent = byl.get(lblk)
+            if ent is None:
+                continue
+            pblk, buf, ents = ent
+            lo &= ~1
+            for (pos, eino, rl, nl, ft, name) in ents:
+                if eino == 0:
+                    continue
+                h, _m = dirhash(name, hv, hseed, unsigned)
+                if h < lo or (hi is not None and h > hi):
+                    add('R4.htree_hash', 'inode %d: name %r (hash %#x) in leaf lblk %d outside [%#x, %s]' % (
+                        ino, name, h, lblk, lo, '%#x' % hi if hi is not None else 'end'), ('block', pblk))
+                    break
+
+    def _check_journal_sb(self, i, add):
+        try:
+            ext, _t = self.extents(i)
+            if not ext or ext[0][0] != 0:
+                add('R4.journal', 'journal inode %d has no block 0' % i.ino, ('inode', i.ino))
+                return
+            jsb = self.read_block(ext[0][1])[:1024]
+        except FormatError:
+            return
+        magic, btype, _seq = struct.unpack_from('>III', jsb, 0)
+        if magic != JBD2_MAGIC or btype not in (3, 4):
+            add('R4.journal', 'journal superblock magic %#x type %d' % (magic, btype), ('inode', i.ino))
+            return
+        if btype == 4:
+            incompat = struct.unpack_from('>I', jsb, 0x28)[0]
+            if incompat & 0x18:
+                stored = struct.unpack_from('>I', jsb, 0xFC)[0]
+                c = crc32c(0xffffffff, jsb[:0xFC] + b'\0\0\0\0' + jsb[0x100:])
+                if c != stored:
+                    add('R5.journal_sb', 'journal superblock stored %#x computed %#x' % (stored, c), ('inode', i.ino))
+
+    def _check_orphan_file(self, i, ext, add):
+        if not self.csum:
+            return
+        bs = self.block_size
+        for l, p, n, u in ext:
+            for k in range(n):
+                try:
+                    buf = self.read_block(p + k)
+                except FormatError:
+                    continue
+                magic, stored = struct.unpack_from('<II', buf, bs - 8)
+                if magic != ORPHAN_BLOCK_MAGIC:
+                    add('R4.orphan_file', 'orphan file block %d has magic %#x' % (p + k, magic), ('block', p + k))
+                    continue
+                c = crc32c(self.csum_seed, struct.pack('<I', i.ino))
+                c = crc32c(c, struct.pack('<I', i.generation))
+                c = crc32c(c, struct.pack('<Q', p + k))
+                c = crc32c(c, buf[:bs - 8])
+                if c != stored:
+                    add('R5.orphan_file', 'orphan file block %d stored %#x computed %#x' % (p + k, stored, c),
+                        ('block', p + k))
+
+    # ---------------------------------------------------------------- public results
+    def check(self):
+        """All complaints about the image; never raises."""
+        try:
+            return list(self._scan()['complaints'])
+        except FormatError as e:
+            return [Complaint('R4.fatal', str(e), None)]
+        except RecursionError:
+            return [Complaint('R4.fatal', 'structure nesting too deep', None)]
+        except (struct.error, IndexError, KeyError, ValueError, OverflowError, MemoryError, TypeError) as e:
+            return [Complaint('R4.fatal', 'internal: %s: %s' % (type(e).__name__, e), None)]
+
+    def verify_checksums(self):
+        return [c for c in self.check() if c.rule.startswith('R5') or c.rule == 'R4.fatal']
+
+    def owner_map(self):
+        """(dict blk -> [owner...], [complaints]); owners are ('inode', ino, kind) or ('meta', kind, group)."""
+        try:
+            sc = self._scan()
+        except FormatError as e:
+            return {}, [Complaint('R4.fatal', str(e), None)]
+        m = {}
+        for blk, (kind, g) in self.fixed_metadata().items():
+            m.setdefault(blk, []).append(('meta', kind, g))
+        for blk, l in sc['owners'].items():
+            for ino, kind in l:
+                m.setdefault(blk, []).append(('inode', ino, kind))
+        return m, [c for c in sc['complaints'] if c.rule.startswith('R1')]
+
+    def metadata_blocks(self):
+        """dict blk -> kind for every block that holds metadata (everything except file data)."""
+        sc = self._scan()
+        m = {}
+        for blk, (kind, g) in self.fixed_metadata().items():
+            m[blk] = kind
+        for blk, l in sc['owners'].items():
+            for ino, kind in l:
+                if kind not in ('data', 'badblock'):
+                    m.setdefault(blk, kind)
+        return m
+
+    def uninit_groups(self):
+        """{'block': [groups with BLOCK_UNINIT], 'inode': [groups with INODE_UNINIT]}"""
+        r = {'block': [], 'inode': []}
+        for g in range(self.group_count):
+            fl = self.group_flags(g)
+            if fl & BG_BLOCK_UNINIT:
+                r['block'].append(g)
+            if fl & BG_INODE_UNINIT:
+                r['inode'].append(g)
+        return r
+
+
+def main(argv):
+    import time
+    if len(argv) < 2:
+        print('usage: refext4.py image [--digest] [--tree]')
+        return 2
+    t0 = time.time()
+    fs = RefFS(argv[1])
+    if '--tree' in argv:
+        for p, e in sorted(fs.tree().items()):
+            print(e.ino, oct(e.inode.mode), e.inode.size, p)
+    if '--digest' in argv:
+        print(fs.tree_digest()[0])
+    cl = fs.check()
+    for c in cl:
+        print(c)
+    print('%d complaint(s), %.3f s' % (len(cl), time.time() - t0))
+    return 1 if cl else 0
+
+
+if __name__ == '__main__':
+    import sys
+    sys.exit(main(sys.argv))
